@@ -21,7 +21,7 @@ section('findings', '\n'.join(rows))
 rows = ['| seeded change | what was changed | needs to manifest | result |', '|---|---|---|---|']
 for pid in sorted(sm):
     m = sm[pid]
-    rows.append('| %s-1 | %s | %s | %s |' % (pid, m['change'].replace('|', '\\|'), m['needs'].replace('|', '\\|'), m['result'].replace('|', '\\|')))
+    rows.append('| %s | %s | %s | %s |' % (pid if '-' in pid else pid + '-1', m['change'].replace('|', '\\|'), m['needs'].replace('|', '\\|'), m['result'].replace('|', '\\|')))
 section('seeded', '\n'.join(rows))
 open(os.path.join(root, 'DESIGN.md'), 'w').write(d)
 print('ok')
